@@ -27,7 +27,11 @@ RULE = ('convex functional expressions with a convex_conj (built-ins x derived c
         'x 9 spaces x points on the dyadic grid; per expression: Fenchel-Young inequality on '
         'random pairs, equality at y = grad f(x), biconjugate values, Moreau decomposition, and '
         'f / f* / f** values vs the Lean model. distinct = distinct (space kind, set of classes in '
-        'the expression, check) signatures among non-trivial cases (finite, not identically zero).')
+        'the expression, check) signatures among non-trivial cases (finite, not identically zero). '
+        'moreau-model stream: f.proximal(sigma)(x) and f.convex_conj.proximal(1/sigma)(x/sigma) of '
+        'every modelled expression vs the Lean execution of Fn.toProx / Prox.Fn.prox on f and on the '
+        'coded conjugate Fn.conj f (raises compared in both directions), plus default-conj recipes '
+        '(FunctionalQuadraticPerturb with quadratic coefficient > 0).')
 TRUSTED = ['serialiser tools/harness/functionals_common.py:wire (live ODL functional object -> '
            'model expression, by class and attributes)',
            'NumPy ufuncs / inner products (modelled as exact entry-wise maps and weighted sums)',
@@ -37,7 +41,12 @@ ASSUMPTIONS = ['floating-point rounding is outside the model: exact-stream input
                'L2 / Lp norms, KL functionals, group norms, nuclear norm and separable sums are '
                'outside the executable model (abstract theorems and oracle only)',
                'the Moreau oracle compares the two proximals of the real code; that each proximal '
-               'is the minimiser is property C07']
+               'is the minimiser is property C07',
+               'the Moreau theorems C08.moreau_exec_* assume an exact np.sqrt (SqrtOK) and the '
+               'unfudged radius 1 of proximal_convex_conj_l1; the code uses 1 - 1e-14 (deviation '
+               '<= sigma * 1e-14, C08.moreau_l1_fudged); the driver runs with the code\'s radius and '
+               'a rational sqrt (exact on squares, 2^-64 relative otherwise); the moreau-model '
+               'comparison is exact where float arithmetic is exact and 1e-11 relative otherwise']
 KNOWN_EXPLAINS_DISAGREEMENT = False
 # classes for which one of the two proximals is DEFINED by proximal_convex_conj in the code
 # (L2Norm <-> ball via proximal_convex_conj_l2, Linf <-> l1-ball via x - proj_l1, the KL families)
